@@ -43,7 +43,8 @@ A. "MetricFrame, the fairness metrics, the constraint moments, ExponentiatedGrad
    A3 necessity: what a raw Series does       | raw_series_is_label_sensitive, raw_place_dup_raises, raw_place_wf
                                                (NaN exactly at positions without a label; the labelled value otherwise),
                                                place_length_artefact (totalisation of the model outside well-formed
-                                               Series)                                                      | FULL (model;
+                                               Series), wrong_length_raises / fresh_wrong_length_is_reindexed (the
+                                               branches `positional_pairing` excludes)                                                      | FULL (model;
                                                the five witness placements replayed on pandas 3.0.6 by the review)
    A4 that the lifted rows are ALL the paths on which an argument reaches a label-aligning operation, and pandas'
       reindexing itself                       | —                                                           | CORRESPONDENCE-
@@ -762,6 +763,21 @@ theorem raw_place_wf (n : Nat) (labels : List Int) (vals : List Rat) (hnd : labe
     (∀ i : Int, vals[labels.idxOf i]? = none ↔ i ∉ labels) ∧
     (∀ p (hp : p < labels.length), vals[labels.idxOf labels[p]]? = vals[p]?) :=
   ⟨place_labelled_ok n labels vals hnd, labelled_entry_none_iff labels vals hl, labelled_entry_some labels vals hnd⟩
+
+/-- (review) the error branch `positional_pairing` excludes by `hn`: a converted (label-free) column of the wrong
+    length does not get paired with anything — it raises (pandas: `Length of values does not match length of index`;
+    MetricFrame / `check_consistent_length` reject it even earlier) -/
+theorem wrong_length_raises (n : Nat) (c : Conv) (a : Arg) (h : dropsLabels c a = true) (hc : c ≠ .fresh)
+    (hl : a.payload.length ≠ n) : placeAll n [c] [a] = .error .length := by
+  have e := Cont.convert_eq_convertP c a h
+  cases c <;> simp_all [placeAll, convertP, place]
+
+/-- … whereas a FRESH Series (the output of `_validate_and_reformat_input`) of another length is re-indexed like any
+    labelled object: cut off, or padded with NaN — which is why `Moment.load_data` relies on the length check made by
+    `_validate_and_reformat_input` before -/
+theorem fresh_wrong_length_is_reindexed :
+    place 2 (convert .fresh ⟨.list, [], [1, 2, 3]⟩) = .ok [some 1, some 2] ∧
+    place 3 (convert .fresh ⟨.list, [], [1, 2]⟩) = .ok [some 1, some 2, none] := by decide +kernel
 
 /-- TOTALISATION of `Cont.place` outside well-formed Series: with FEWER labels than values a missing label reads the
     value just behind the labels instead of NaN (`idxOf` of an absent label is the length of the label list).  No pandas
